@@ -288,7 +288,8 @@ def regex_correspondence(run, regs, sink):
     rows, idx = [], []
     for k, r in enumerate(regs):
         for j, w in enumerate(r.get("rows") or []):
-            rows.append("sweep_row %s %s %d %d \"%s\"" % (C.cq_str(r["name"]), C.cq_bytes(list(w["sample"] or [])), w["pos"], w["mode"], w["bits"]))
+            rows.append("%s %s %s %d %d \"%s\"" % ("upper_row" if r.get("upper") else "sweep_row", C.cq_str(r["name"]),
+                                                     C.cq_bytes(list(w["sample"] or [])), w["pos"], w["mode"], w["bits"]))
             idx.append((k, j))
     chunks = [rows[i:i + 120] for i in range(0, len(rows), 120)]
     for ci, ch in enumerate(chunks):
@@ -311,13 +312,22 @@ def regex_correspondence(run, regs, sink):
         per[name] = per.get(name, 0) + 256
         if v != 0:
             w = r["rows"][j]
-            bad.setdefault(name, []).append("sample %r %s at %d: %s byte values disagree" % (
-                bytes_of(w["sample"]).decode("latin1"), "insert" if w["mode"] == 0 else "replace", w["pos"], "name unknown," if v < 0 else v))
+            smp = bytes_of(w["sample"])
+            if r.get("upper"):
+                acc = smp[:w["pos"]] + bytes([v - 1]) + smp[w["pos"] + w["mode"]:]
+                bad.setdefault(name, []).append("the real validator ACCEPTS %r, which is outside the upper bound %s" % (acc.decode("latin1"), r["name"]))
+            else:
+                bad.setdefault(name, []).append("sample %r %s at %d: %s byte values disagree" % (
+                    smp.decode("latin1"), "insert" if w["mode"] == 0 else "replace", w["pos"], "name unknown," if v < 0 else v))
     sink.append(("cov", "regex_correspondence", {"regexes": len(regs), "strings": sum(per.values()), "rows_with_disagreement": sum(len(v) for v in bad.values())}))
     for r in regs:
         name = r["name"] + "@" + r["source"]
         b = bad.get(name)
         ok = not b and len(r.get("rows") or []) > 0
+        if r.get("upper"):
+            sink.append(("obl", ok, "parser %s accepts nothing outside its upper bound (Tmpl.Validators) on %d one-byte perturbations of samples and near misses" % (name, per.get(name, 0)),
+                         "%s" % (b[:4] if b else "no sample")))
+            continue
         sink.append(("obl", ok, "regex transcription %s agrees with Go regexp on %d one-byte perturbations of accepted samples" % (name, per.get(name, 0)),
                      "Tmpl.Validators disagrees with the real regular expression: %s" % (b[:4] if b else "no sample of this expression is accepted any more")))
 
@@ -371,6 +381,30 @@ def selector_correspondence(run, sels, sink):
         sink.append(("obl", bool(site_ok.get(name)) and not r.get("error"),
                      "selector table: the rendering site of action.proxy.rewritePath for %s is Tmpl.Validators.rewrite_path_site" % name,
                      "the real generator printed the value in tokenizer state %s %s" % (r.get("site") or "(not found)", r.get("error") or "")))
+
+
+def genpath_correspondence(run, rec, sink):
+    """X for the model of generatePath (Tmpl.Validators.gen_path) against the real function on a corpus of route paths"""
+    if not rec or not rec.get("in"):
+        return
+    body = "From NIC Require Import Tmpl.Validators Tmpl.C06Regex.\n"
+    rows = ["gen_path_row %s %s" % (C.cq_bytes(list(i or [])), C.cq_bytes(list(o or []))) for i, o in zip(rec["in"], rec["out"])]
+    chunks = [rows[i:i + 300] for i in range(0, len(rows), 300)]
+    for ci, ch in enumerate(chunks):
+        body += "Definition results%d : list (list Z) := Eval vm_compute in [[" % ci + ";\n ".join(ch) + "]].\nPrint results%d.\n" % ci
+    path = os.path.join(C.WORK, "cases", "C06_genpath_%s.v" % run.tier)
+    C.write_cases_v(path, body)
+    rc, out = C.coqc(path, timeout=900)
+    flat = []
+    for ci in range(len(chunks)):
+        res = C.parse_z_lists(out, "results%d" % ci)
+        if rc != 0 or not res:
+            raise C.TieBroken("coqc could not evaluate the C06 generatePath correspondence file (%s): %s" % (path, out[-1500:]))
+        flat += res[0]
+    bad = [(bytes_of(rec["in"][i]).decode("latin1"), bytes_of(rec["out"][i]).decode("latin1")) for i, v in enumerate(flat) if v != 1]
+    sink.append(("obl", len(flat) == len(rows) and not bad,
+                 "the model of generatePath (Tmpl.Validators.gen_path: a regular-expression route path is written quoted) agrees with the real function on %d route paths" % len(rows),
+                 "generatePath(input) = output differs from the model for (input, output): %s" % bad[:4]))
 
 
 def translate_templates(run):
@@ -521,11 +555,12 @@ def check(run):
     cases = [r for r in recs if r["rec"] == "case"]
     sums = [r for r in recs if r["rec"] == "summary"]
     inv = [r for r in recs if r["rec"] == "inventory"][0]
-    side = concurrent.futures.ThreadPoolExecutor(max_workers=3)
-    sink_r, sink_c, sink_s = [], [], []
+    side = concurrent.futures.ThreadPoolExecutor(max_workers=4)
+    sink_r, sink_c, sink_s, sink_g = [], [], [], []
     fut = [side.submit(regex_correspondence, run, [r for r in recs if r["rec"] == "regex"], sink_r),
            side.submit(class_correspondence, run, ([r for r in recs if r["rec"] == "classes"] or [None])[0], sink_c),
-           side.submit(selector_correspondence, run, [r for r in recs if r["rec"] == "selector"], sink_s)]
+           side.submit(selector_correspondence, run, [r for r in recs if r["rec"] == "selector"], sink_s),
+           side.submit(genpath_correspondence, run, ([r for r in recs if r["rec"] == "genpath"] or [None])[0], sink_g)]
     for b in bases.values():
         if b.get("invalid") or b.get("errors") or not b.get("files"):
             run.failing({"kind": "fixture-invalid", "fixture": b["fixture"]}, [],
@@ -537,7 +572,7 @@ def check(run):
     rows = evaluate(bases, cases, run.tier)
     for f in fut:
         f.result()
-    for item in sink_r + sink_c + sink_s:
+    for item in sink_r + sink_c + sink_s + sink_g:
         if item[0] == "cov":
             run.cov[item[1]] = item[2]
         else:
